@@ -83,13 +83,6 @@ def s_try(b, i):
         return -1
 
 
-def s_loop_sum(b):
-    t = 0
-    for x in b:
-        t = t * 256 + x
-    return t
-
-
 def s_while(a):
     n = 0
     while a > 0:
